@@ -16,6 +16,7 @@ import (
 	"encoding/binary"
 	"fmt"
 	"net"
+	"strings"
 	"sync"
 	"testing"
 	"time"
@@ -44,8 +45,21 @@ import (
 	"github.com/libp2p/go-libp2p/p2p/transport/websocket"
 	libp2pwebtransport "github.com/libp2p/go-libp2p/p2p/transport/webtransport"
 	ma "github.com/multiformats/go-multiaddr"
+	manet "github.com/multiformats/go-multiaddr/net"
 	"github.com/quic-go/quic-go"
 )
+
+// a persistent datastore serialises what it is given; MapDatastore keeps the
+// caller's slice, which the harness overwrites after every rule call
+type e2eCopyDS struct{ datastore.Datastore }
+
+func (d e2eCopyDS) Put(ctx context.Context, k datastore.Key, v []byte) error {
+	return d.Datastore.Put(ctx, k, append([]byte{}, v...))
+}
+
+func e2eNewDS() datastore.Datastore {
+	return e2eCopyDS{dssync.MutexWrap(datastore.NewMapDatastore())}
+}
 
 // ---- recorder ------------------------------------------------------------------
 
@@ -451,14 +465,30 @@ func e2eApplyCalls(t *testing.T, ds datastore.Datastore, g *e2eGater, real *conn
 			} else {
 				err = real.UnblockPeer(p)
 			}
-		case c.kind == 1 && c.opk == 0:
-			err = real.BlockAddr(c.ip)
 		case c.kind == 1:
-			err = real.UnblockAddr(c.ip)
-		case c.opk == 0:
-			err = real.BlockSubnet(c.n)
+			// the caller's slice is overwritten once the call has returned
+			ip := append(net.IP{}, c.ip...)
+			if c.opk == 0 {
+				err = real.BlockAddr(ip)
+			} else {
+				err = real.UnblockAddr(ip)
+			}
+			for i := range ip {
+				ip[i] = 0xAB
+			}
 		default:
-			err = real.UnblockSubnet(c.n)
+			n := &net.IPNet{IP: append(net.IP{}, c.n.IP...), Mask: append(net.IPMask{}, c.n.Mask...)}
+			if c.opk == 0 {
+				err = real.BlockSubnet(n)
+			} else {
+				err = real.UnblockSubnet(n)
+			}
+			for i := range n.IP {
+				n.IP[i] = 0xAB
+			}
+			for i := range n.Mask {
+				n.Mask[i] = 0xFF
+			}
 		}
 		if err != nil {
 			t.Fatalf("c10 e2e: rule call failed: %v", err)
@@ -468,7 +498,7 @@ func e2eApplyCalls(t *testing.T, ds datastore.Datastore, g *e2eGater, real *conn
 
 func e2eRun(t *testing.T, out *verifh.Out, tpt int, dir int, opt int, v6 bool, withMapped bool, calls []e2eCall, keySeed byte) {
 	rec := &e2eRec{}
-	ds := dssync.MutexWrap(datastore.NewMapDatastore())
+	ds := e2eNewDS()
 	real, err := conngater.NewBasicConnectionGater(ds)
 	if err != nil {
 		t.Fatal(err)
@@ -659,6 +689,9 @@ func TestVerifC10E2E(t *testing.T) {
 	}
 	defer out.Close()
 	thorough := verifh.Tier() == "thorough"
+	// every address form through the real accept-time / dial-time gating sites
+	e2eAcceptForms(t, out)
+	e2eCircuitForms(t, out)
 	r := verifh.NewRand(verifh.Seed() + 77)
 	type job struct {
 		tpt, dir, opt int
@@ -782,4 +815,233 @@ func TestVerifC10E2EReplay(t *testing.T) {
 	first := in[pos+2 : pos+8]
 	v6 := first[1] == 16 && !(first[2] == 0 && first[3] == 0 && first[4] == 0xffff)
 	e2eRun(t, out, tpt, dir, opt, v6, na > 1, calls, 200)
+}
+
+// ---- address forms through the real accept-time and dial-time gating sites --------------
+
+// fake manet listener / conn: what a TCP listener hands to gatedMaListener.Accept
+type e2eFakeConn struct {
+	net.Conn
+	local, remote ma.Multiaddr
+	mu            sync.Mutex
+	closed        bool
+}
+
+func (c *e2eFakeConn) LocalMultiaddr() ma.Multiaddr  { return c.local }
+func (c *e2eFakeConn) RemoteMultiaddr() ma.Multiaddr { return c.remote }
+func (c *e2eFakeConn) LocalAddr() net.Addr           { return &net.TCPAddr{IP: net.IP{127, 0, 0, 1}, Port: 1} }
+func (c *e2eFakeConn) RemoteAddr() net.Addr          { return &net.TCPAddr{IP: net.IP{127, 0, 0, 1}, Port: 2} }
+func (c *e2eFakeConn) Close() error {
+	c.mu.Lock()
+	c.closed = true
+	c.mu.Unlock()
+	return nil
+}
+
+type e2eFakeListener struct {
+	conns []manet.Conn
+}
+
+func (l *e2eFakeListener) Accept() (manet.Conn, error) {
+	if len(l.conns) == 0 {
+		return nil, fmt.Errorf("c10: no more connections")
+	}
+	c := l.conns[0]
+	l.conns = l.conns[1:]
+	return c, nil
+}
+func (l *e2eFakeListener) Close() error            { return nil }
+func (l *e2eFakeListener) Multiaddr() ma.Multiaddr { return ma.StringCast("/ip4/127.0.0.1/tcp/1") }
+func (l *e2eFakeListener) Addr() net.Addr          { return &net.TCPAddr{IP: net.IP{127, 0, 0, 1}, Port: 1} }
+
+type e2eForm struct {
+	addr string // multiaddr text, %R = relay peer id
+	ip   net.IP // the IP the address carries (nil: none)
+}
+
+type e2eFormRule struct {
+	name  string
+	calls []e2eCall
+}
+
+func e2eFormRules(ip net.IP) []e2eFormRule {
+	rules := []e2eFormRule{{name: "none"}}
+	if ip == nil {
+		return append(rules, e2eFormRule{"unrelated", []e2eCall{{kind: 2, n: cidr("10.0.0.0/8")}, {kind: 2, n: cidr("fe80::/10")}}})
+	}
+	var wide *net.IPNet
+	forms := []net.IP{ip}
+	if v4 := ip.To4(); v4 != nil {
+		wide = &net.IPNet{IP: v4.Mask(net.CIDRMask(8, 32)), Mask: net.CIDRMask(8, 32)}
+		forms = []net.IP{append(net.IP{}, v4...), mapped(v4)}
+	} else {
+		wide = &net.IPNet{IP: ip.Mask(net.CIDRMask(10, 128)), Mask: net.CIDRMask(10, 128)}
+	}
+	for _, f := range forms {
+		rules = append(rules, e2eFormRule{"addr", []e2eCall{{kind: 1, ip: f}}})
+	}
+	rules = append(rules,
+		e2eFormRule{"subnet", []e2eCall{{kind: 2, n: wide}}},
+		e2eFormRule{"subnet+restart", []e2eCall{{kind: 2, n: wide}, {ev: 4}}},
+		e2eFormRule{"addr-then-unblocked", []e2eCall{{kind: 1, ip: forms[0]}, {kind: 1, opk: 1, ip: forms[len(forms)-1]}}},
+		e2eFormRule{"unrelated", []e2eCall{{kind: 2, n: cidr("192.0.2.0/24")}, {kind: 1, ip: net.ParseIP("2001:db8::99")}, {kind: 0, p: 2}}})
+	return rules
+}
+
+func e2eFormLine(dir, tpt int, calls []e2eCall, ips []net.IP, evs [][4]int64) []int64 {
+	line := []int64{1, int64(dir), int64(tpt), 0, int64(len(calls))}
+	for _, c := range calls {
+		line = append(line, c.enc()...)
+	}
+	line = append(line, 1, int64(len(ips)))
+	for _, ip := range ips {
+		if ip == nil {
+			line = append(line, 0, 0, 0, 0, 0, 0)
+		} else {
+			line = append(append(line, 1), encIP(ip)...)
+		}
+	}
+	line = append(line, int64(len(evs)))
+	for _, e := range evs {
+		line = append(line, e[0], e[1], e[2], e[3])
+	}
+	return append(line, 0, 0, 0)
+}
+
+// inbound: every remote-address form through the real gatedMaListener.Accept
+func e2eAcceptForms(t *testing.T, out *verifh.Out) {
+	relay, _ := peer.IDFromPrivateKey(e2eKey(77))
+	forms := []e2eForm{
+		{"/ip4/10.9.8.7/tcp/5555", net.IP{10, 9, 8, 7}},
+		{"/ip4/10.9.8.7/tcp/5555/ws", net.IP{10, 9, 8, 7}},
+		{"/ip6/::ffff:10.9.8.7/tcp/5555", mapped(net.IP{10, 9, 8, 7})},
+		{"/ip6/2001:db8::7/tcp/5555", net.ParseIP("2001:db8::7")},
+		{"/ip6/fe80::1234/tcp/5555", net.ParseIP("fe80::1234")},
+		{"/ip6zone/eth0/ip6/fe80::1234/tcp/5555", net.ParseIP("fe80::1234")},
+		{"/ip6zone/wlan0/ip6/fe80::1234/tcp/5555/ws", net.ParseIP("fe80::1234")},
+		{"/ip4/10.9.8.7/tcp/1/p2p/%R/p2p-circuit", net.IP{10, 9, 8, 7}},
+		{"/p2p/%R/p2p-circuit", nil},
+	}
+	priv := e2eKey(78)
+	id, _ := peer.IDFromPrivateKey(priv)
+	other, _ := peer.IDFromPrivateKey(e2eKey(79))
+	for _, f := range forms {
+		remote, err := ma.NewMultiaddr(strings.ReplaceAll(f.addr, "%R", relay.String()))
+		if err != nil {
+			t.Fatalf("c10: %s: %v", f.addr, err)
+		}
+		for _, ru := range e2eFormRules(f.ip) {
+			rec := &e2eRec{remote: other}
+			ds := e2eNewDS()
+			real, err := conngater.NewBasicConnectionGater(ds)
+			if err != nil {
+				t.Fatal(err)
+			}
+			g := &e2eGater{inner: real, rec: rec}
+			e2eApplyCalls(t, ds, g, real, ru.calls, other, relay)
+			st := insecure.NewWithIdentity(insecure.ID, id, priv)
+			upg, err := tptu.New([]sec.SecureTransport{st}, []tptu.StreamMuxer{{ID: yamux.ID, Muxer: yamux.DefaultTransport}}, nil, nil, g)
+			if err != nil {
+				t.Fatal(err)
+			}
+			conn := &e2eFakeConn{local: ma.StringCast("/ip4/127.0.0.1/tcp/1"), remote: remote}
+			gl := upg.GateMaListener(&e2eFakeListener{conns: []manet.Conn{conn}})
+			c, scope, err := gl.Accept()
+			evs := append([][4]int64{}, rec.evs...)
+			if err == nil && c != nil {
+				// handed on to the security handshake
+				evs = append(evs, [4]int64{5, 0, 0, 0})
+				if scope != nil {
+					scope.Done()
+				}
+				out.Cover("forms.accept.passed-on")
+			} else {
+				out.Cover("forms.accept.closed-at-accept")
+			}
+			out.Cover("forms.accept.cases")
+			out.Case(e2eFormLine(1, 5, ru.calls, []net.IP{f.ip}, evs))
+		}
+	}
+}
+
+// a relay transport that records nothing itself (the counting wrapper does) and never connects
+type e2eFakeCircuit struct{}
+
+func (e2eFakeCircuit) Dial(context.Context, ma.Multiaddr, peer.ID) (transport.CapableConn, error) {
+	return nil, fmt.Errorf("c10: fake circuit transport does not connect")
+}
+func (e2eFakeCircuit) CanDial(a ma.Multiaddr) bool {
+	_, err := a.ValueForProtocol(ma.P_CIRCUIT)
+	return err == nil
+}
+func (e2eFakeCircuit) Listen(ma.Multiaddr) (transport.Listener, error) {
+	return nil, fmt.Errorf("c10: fake circuit transport does not listen")
+}
+func (e2eFakeCircuit) Protocols() []int { return []int{ma.P_CIRCUIT} }
+func (e2eFakeCircuit) Proxy() bool      { return true }
+
+// outbound: circuit (and plain) address forms through the real swarm dial path
+// (dialPeer -> addrsForDial -> filterKnownUndialables -> dial worker -> transport)
+func e2eCircuitForms(t *testing.T, out *verifh.Out) {
+	relay, _ := peer.IDFromPrivateKey(e2eKey(87))
+	other, _ := peer.IDFromPrivateKey(e2eKey(89))
+	target, _ := peer.IDFromPrivateKey(e2eKey(90))
+	forms := []e2eForm{
+		{"/ip4/10.9.8.7/tcp/1/p2p/%R/p2p-circuit", net.IP{10, 9, 8, 7}},
+		{"/ip4/10.9.8.7/udp/1/quic-v1/p2p/%R/p2p-circuit", net.IP{10, 9, 8, 7}},
+		{"/ip6/::ffff:10.9.8.7/tcp/1/p2p/%R/p2p-circuit", mapped(net.IP{10, 9, 8, 7})},
+		{"/ip6/2001:db8::7/tcp/1/p2p/%R/p2p-circuit", net.ParseIP("2001:db8::7")},
+	}
+	for fi, f := range forms {
+		a, err := ma.NewMultiaddr(strings.ReplaceAll(f.addr, "%R", relay.String()))
+		if err != nil {
+			t.Fatalf("c10: %s: %v", f.addr, err)
+		}
+		for ri, ru := range e2eFormRules(f.ip) {
+			for _, opt := range []int{0, 3} {
+				rec := &e2eRec{remote: target, addrs: []ma.Multiaddr{a}}
+				ds := e2eNewDS()
+				real, err := conngater.NewBasicConnectionGater(ds)
+				if err != nil {
+					t.Fatal(err)
+				}
+				g := &e2eGater{inner: real, rec: rec}
+				e2eApplyCalls(t, ds, g, real, ru.calls, target, other)
+				priv := e2eKey(byte(120 + fi*16 + ri))
+				id, _ := peer.IDFromPrivateKey(priv)
+				ps, err := pstoremem.NewPeerstore()
+				if err != nil {
+					t.Fatal(err)
+				}
+				ps.AddPrivKey(id, priv)
+				ps.AddPubKey(id, priv.GetPublic())
+				s, err := swarm.NewSwarm(id, ps, eventbus.NewBus(), swarm.WithConnectionGater(g), swarm.WithDialRanker(swarm.NoDelayDialRanker))
+				if err != nil {
+					t.Fatal(err)
+				}
+				if err := s.AddTransport(&e2eTpt{Transport: e2eFakeCircuit{}, rec: rec}); err != nil {
+					t.Fatal(err)
+				}
+				s.Peerstore().AddAddrs(target, rec.addrs, peerstore.PermanentAddrTTL)
+				ctx, cancel := context.WithTimeout(context.Background(), 3*time.Second)
+				_, _ = s.DialPeer(e2eDialCtx(ctx, opt), target)
+				cancel()
+				rec.mu.Lock()
+				evs := append([][4]int64{}, rec.evs...)
+				rec.mu.Unlock()
+				dialed := false
+				for _, e := range evs {
+					dialed = dialed || e[0] == 3
+				}
+				if dialed {
+					out.Cover("forms.circuit.transport-dial")
+				} else {
+					out.Cover("forms.circuit.no-transport-dial")
+				}
+				out.Cover("forms.circuit.cases")
+				out.Case(e2eFormLine(0, 4+16*opt, ru.calls, []net.IP{f.ip}, evs))
+				s.Close()
+			}
+		}
+	}
 }
